@@ -9,6 +9,13 @@ HERE = os.path.dirname(os.path.dirname(os.path.abspath(__file__)))
 TB = "clang 14 parser/Sema/CFG builder (fact extraction); the frozen tables in cifsa/rules/*.py and cifsa/tx.py"
 
 CLAIMED = {
+    "C01": dict(level="other", ref="5 C01",
+                text="Exhaustive agreement of finite tables: the scanner's character-class/metaclass tables (reconstructed from the "
+                     "INIT_V2_SCANNER / SET_V1 stores) equal the CIF 2.0 / 1.1 lexical grammar; every production switch accepts all "
+                     "five value-starting token kinds and dispatches them alike; reserved-word recognisers agree. These are necessary "
+                     "conditions of correct parsing; the scanner's transitions on arbitrary documents are not decided.",
+                note=TB + "; the grammar table transcribed in cifsa/rules/c01.py",
+                tech="constant-table reconstruction from AST stores + switch/case-label dispatch analysis on CFGs"),
     "C05": dict(level="proof", ref="5 C05",
                 text="Path-universal transaction typestate over the CFG of every function that reaches a transaction event or a "
                      "modifying statement: depth balanced on every exit, no failure return after a successful commit, no success "
@@ -23,6 +30,13 @@ CLAIMED = {
                      "of the property; once-only delivery of packets depends on SQL row grouping at run time and is not decided.",
                 note=TB + "; SQLite transaction/savepoint semantics",
                 tech="typestate dataflow + dominance / must-pass-through queries on clang CFGs"),
+    "C18": dict(level="other", ref="5 C18",
+                text="Exhaustive agreement of finite tables: the special-character sets of cif_analyze_string, cif_value_set_quoted and "
+                     "cif_is_reserved_string equal the scanner's token-ending / token-starting classes; reserved words agree with "
+                     "next_token; the analyser's length margins equal the writer's delimiter overheads and its delim_length values are "
+                     "the writer's case labels. Read-back of each recommended form is not decided.",
+                note=TB,
+                tech="constant/operand extraction from ASTs + table agreement"),
     "C20": dict(level="proof", ref="5 C20",
                 text="Exhaustive comparison of the finite set of result-code macros of cif.h with the positional cif_errlist "
                      "initialiser and cif_nerr, read from the AST; complete for this property.",
